@@ -374,13 +374,16 @@ def _p1(ctx, g, x, root, fl):
             # handled by the C13 map rule (no-reader branch of the entry point)
             continue
         # capacity Full: fresh scan in this call, on the full edge of a fullness test
+        # (one Full for both reasons - `if !has_room(..) || !check_ref(..) { return Full }` - is reached on the pinned edge
+        # without a scan: those paths are the pinned kind, the others must have scanned)
+        pe = set(pinned_edges)
         bad = []
         for h in sorted(H):
-            if nid in x.reach_from(h, blocked=readers_loads | (H - {h})):
+            if nid in x.reach_from(h, blocked=readers_loads | (H - {h}) | pe):
                 bad.append(x.describe(h))
-        if nid in x.reachable_entry(blocked=readers_loads | H):
+        if nid in x.reachable_entry(blocked=readers_loads | H | pe):
             bad.append('entry')
-        ok = not bad and x.dom(full_edges, nid)
+        ok = not bad and x.dom(set(full_edges) | pe, nid)
         ctx.add('P1b', 'T-DOM', fn, ok,
                 'capacity Full only after a fresh scan of the stream list in this call, on the full edge' if ok else
                 'Full at %s reachable without re-scanning the stream list after the head observation (%s) / not on a full edge' % (g.where(nid), bad),
